@@ -13,13 +13,18 @@ import (
 	"encoding/json"
 	"fmt"
 	"io"
+	"net"
+	"net/http"
 	"os"
 	"path/filepath"
 	"strconv"
 	"strings"
+	"sync"
+	"syscall"
 	"time"
 
 	"github.com/openebs/jiva/replica"
+	replicaClient "github.com/openebs/jiva/replica/client"
 	jsync "github.com/openebs/jiva/sync"
 	"github.com/openebs/jiva/types"
 	"github.com/openebs/sparse-tools/sparse"
@@ -34,7 +39,7 @@ const (
 )
 
 type Op struct {
-	K    string `json:"k"` // w r snap prep fold rm del revert reopen reload punch resize lun cand
+	K    string `json:"k"` // w r snap prep fold rm del revert reopen reload punch resize lun cand rf clean
 	Off  int64  `json:"off,omitempty"`
 	Len  int64  `json:"len,omitempty"`
 	Tok  int64  `json:"tok,omitempty"`
@@ -45,7 +50,9 @@ type Op struct {
 	Pre  bool   `json:"pre,omitempty"`
 	B    bool   `json:"b,omitempty"`
 	NB   int64  `json:"nb,omitempty"`
-	CP   int    `json:"cp,omitempty"` // candidates: checkpoint name, -1 = ""
+	CP   int    `json:"cp,omitempty"` // candidates / clean: checkpoint name, -1 = ""
+	File int    `json:"file,omitempty"` // rf: chain position (1 = base ... head) whose descriptors are unusable
+	Fail bool   `json:"fail,omitempty"` // clean: the sync agent answers the coalesce with a failure
 }
 
 type Case struct {
@@ -68,6 +75,7 @@ type Obs struct {
 	Revs  []int      `json:"revs"`
 	NBlk  int64      `json:"nblk"`
 	Sizes []int64    `json:"sizes,omitempty"` // candidates: allocated size of each returned name
+	Victim int       `json:"victim"`          // clean: the snapshot the cleaner works on (first candidate), 0 = none
 	Note  string     `json:"note,omitempty"`
 }
 
@@ -86,6 +94,8 @@ type runner struct {
 	unit int64 // bytes per unit
 	tbl  [][][2]int64
 	idx  map[string]int
+	cl   *cleaner // the background cleaner of this replica, started by the first `clean` operation
+	vict int      // victim of the last `clean` operation
 }
 
 func rc(err error) string {
@@ -322,6 +332,32 @@ func (r *runner) do(op Op) (res string, data []int64, names []int, sizes []int64
 			return "err", nil, nil, nil, err.Error()
 		}
 		return "ok", r.decode(buf, op.Off), nil, nil, ""
+	case "rf":
+		// a read while every descriptor this process holds on one chain file is unusable for reading
+		// (swapped for an O_WRONLY descriptor of the same file: pread fails with EBADF, FIEMAP still works)
+		hx.QuiesceHoles()
+		ch := r.chain()
+		restore := func() {}
+		swapped := 0
+		if op.File >= 1 && op.File <= len(ch) {
+			var err error
+			restore, swapped, err = breakFile(r.dir, ch[op.File-1], syscall.O_WRONLY)
+			if err != nil {
+				panic("fault injection: " + err.Error())
+			}
+			if swapped == 0 {
+				panic("fault injection: no descriptor on " + ch[op.File-1])
+			}
+		}
+		buf := make([]byte, op.Len*U)
+		_, err := s.ReadAt(buf, op.Off*U)
+		restore()
+		if err != nil {
+			return "err", nil, nil, nil, err.Error()
+		}
+		return "ok", r.decode(buf, op.Off), nil, nil, fmt.Sprintf("swapped %d", swapped)
+	case "clean":
+		return r.clean(op)
 	case "snap":
 		return rc(s.Snapshot(snapName(op.Name), op.User, created)), nil, nil, nil, ""
 	case "prep":
@@ -360,6 +396,9 @@ func (r *runner) do(op Op) (res string, data []int64, names []int, sizes []int64
 		if err := s.Close(); err != nil {
 			return "err", nil, nil, nil, err.Error()
 		}
+		if r.cl != nil {
+			r.cl.waitExit() // the cleaner leaves its loop when it finds the replica closed
+		}
 		s.SetPreload(op.Pre)
 		if err := s.Open(); err != nil {
 			return "err", nil, nil, nil, err.Error()
@@ -395,6 +434,286 @@ func (r *runner) do(op Op) (res string, data []int64, names []int, sizes []int64
 		return "ok", nil, names, sizes, ""
 	}
 	return "err", nil, nil, nil, "unknown op " + op.K
+}
+
+// breakFile swaps every descriptor of this process that refers to the file dir/name for a descriptor of the same
+// file opened with `flags` only (O_WRONLY: reads fail with EBADF); the returned function swaps the
+// originals back.  The descriptors are collected first: the listing itself opens and closes descriptors.
+func breakFile(dir, name string, flags int) (func(), int, error) {
+	ents, err := os.ReadDir("/proc/self/fd")
+	if err != nil {
+		return nil, 0, err
+	}
+	want := filepath.Join(dir, name)
+	// by inode: a snapshot file is the former head under a new link, its descriptor still names the old one
+	var st syscall.Stat_t
+	if err := syscall.Stat(want, &st); err != nil {
+		return nil, 0, err
+	}
+	var hits []int
+	for _, e := range ents {
+		fd, err := strconv.Atoi(e.Name())
+		if err != nil {
+			continue
+		}
+		var fs syscall.Stat_t
+		if err := syscall.Fstat(fd, &fs); err != nil || fs.Ino != st.Ino || fs.Dev != st.Dev {
+			continue
+		}
+		hits = append(hits, fd)
+	}
+	type sw struct{ fd, saved int }
+	var sws []sw
+	undo := func() {
+		for _, x := range sws {
+			syscall.Dup2(x.saved, x.fd)
+			syscall.Close(x.saved)
+		}
+	}
+	for _, fd := range hits {
+		saved, err := syscall.Dup(fd)
+		if err != nil {
+			undo()
+			return nil, 0, err
+		}
+		bad, err := syscall.Open(want, flags, 0)
+		if err != nil {
+			syscall.Close(saved)
+			undo()
+			return nil, 0, err
+		}
+		err = syscall.Dup2(bad, fd)
+		syscall.Close(bad)
+		if err != nil {
+			syscall.Close(saved)
+			undo()
+			return nil, 0, err
+		}
+		sws = append(sws, sw{fd, saved})
+	}
+	return undo, len(sws), nil
+}
+
+// cleaner runs the production background cleaner (sync.Task.InternalSnapshotCleaner, the goroutine every
+// replica starts) against this replica.  The two peers it talks to are this process:
+//   - the controller (GET /v1/checkpoint): answers "no checkpoint" until a pass is armed, then names the
+//     checkpoint exactly once; the request after that one shows that the armed pass is over;
+//   - the replica's sync agent (POST /v1/processes {fold}, at the replica's port + 2): performs the fold with
+//     sparse.FoldFile the way the agent's sfold child does, or reports exit code 1 when told to fail.
+// The harness is built with the ticker period of the cleaner shortened (see checks/blocklib.py).
+type cleaner struct {
+	mu       sync.Mutex
+	dir      string
+	armed    string // checkpoint to hand out once
+	served   bool   // the armed checkpoint was handed out
+	after    int    // checkpoint requests since it was handed out
+	failFold bool   // answer the next fold with a failure
+	folds    int    // fold requests received in this pass
+	failed   int    // ... of which answered with a failure
+	procs    map[string]int
+	ctrl     net.Listener
+	agent    net.Listener
+	task     *jsync.Task
+	rc       *replicaClient.ReplicaClient
+	done     chan struct{}
+}
+
+func newCleaner(dir string) (*cleaner, error) {
+	c := &cleaner{dir: dir, procs: map[string]int{}}
+	var err error
+	if c.ctrl, err = net.Listen("tcp", "127.0.0.1:0"); err != nil {
+		return nil, err
+	}
+	// the sync agent must listen on (replica port + 2): pick the agent's port, derive the replica address
+	for try := 0; ; try++ {
+		if c.agent, err = net.Listen("tcp", "127.0.0.1:0"); err != nil {
+			return nil, err
+		}
+		if c.agent.Addr().(*net.TCPAddr).Port > 1026 {
+			break
+		}
+		c.agent.Close()
+		if try > 10 {
+			return nil, fmt.Errorf("no usable port")
+		}
+	}
+	aport := c.agent.Addr().(*net.TCPAddr).Port
+	cmux := http.NewServeMux()
+	cmux.HandleFunc("/", func(w http.ResponseWriter, req *http.Request) {
+		if !strings.HasSuffix(req.URL.Path, "/checkpoint") {
+			http.NotFound(w, req)
+			return
+		}
+		c.mu.Lock()
+		name := ""
+		if c.armed != "" && !c.served {
+			name = c.armed
+			c.served = true
+		} else if c.served {
+			c.after++
+		}
+		c.mu.Unlock()
+		w.Header().Set("Content-Type", "application/json")
+		fmt.Fprintf(w, `{"type":"checkpoint","snapshot":%q}`, name)
+	})
+	amux := http.NewServeMux()
+	amux.HandleFunc("/v1/processes", func(w http.ResponseWriter, req *http.Request) {
+		var p struct {
+			ProcessType string `json:"processType"`
+			SrcFile     string `json:"srcFile"`
+			DestFile    string `json:"destfile"`
+		}
+		if err := json.NewDecoder(req.Body).Decode(&p); err != nil || p.ProcessType != "fold" {
+			http.Error(w, "unsupported process", http.StatusUnprocessableEntity)
+			return
+		}
+		c.mu.Lock()
+		c.folds++
+		fail := c.failFold
+		c.failFold = false
+		id := strconv.Itoa(len(c.procs) + 1)
+		c.mu.Unlock()
+		code := 0
+		if fail {
+			code = 1
+		} else {
+			hx.QuiesceHoles()
+			if err := foldFile(filepath.Join(c.dir, p.SrcFile), filepath.Join(c.dir, p.DestFile)); err != nil {
+				code = 1
+			}
+		}
+		c.mu.Lock()
+		if code != 0 {
+			c.failed++
+		}
+		c.procs[id] = code
+		c.mu.Unlock()
+		c.writeProc(w, id, aport, code)
+	})
+	amux.HandleFunc("/v1/processes/", func(w http.ResponseWriter, req *http.Request) {
+		id := strings.TrimPrefix(req.URL.Path, "/v1/processes/")
+		c.mu.Lock()
+		code, ok := c.procs[id]
+		c.mu.Unlock()
+		if !ok {
+			http.NotFound(w, req)
+			return
+		}
+		c.writeProc(w, id, aport, code)
+	})
+	go http.Serve(c.ctrl, cmux)
+	go http.Serve(c.agent, amux)
+	c.task = jsync.NewTask("http://" + c.ctrl.Addr().String())
+	if c.rc, err = replicaClient.NewReplicaClient(fmt.Sprintf("127.0.0.1:%d", aport-2)); err != nil {
+		return nil, err
+	}
+	return c, nil
+}
+
+func (c *cleaner) writeProc(w http.ResponseWriter, id string, aport, code int) {
+	w.Header().Set("Content-Type", "application/json")
+	fmt.Fprintf(w, `{"id":%q,"type":"process","links":{"self":"http://127.0.0.1:%d/v1/processes/%s"},"processType":"fold","exitCode":%d}`,
+		id, aport, id, code)
+}
+
+// ensure starts the production goroutine unless it is running
+func (c *cleaner) ensure(s *replica.Server) {
+	if c.done != nil {
+		select {
+		case <-c.done:
+		default:
+			return
+		}
+	}
+	done := make(chan struct{})
+	c.done = done
+	go func() {
+		c.task.InternalSnapshotCleaner(s, c.rc)
+		close(done)
+	}()
+}
+
+func (c *cleaner) waitExit() {
+	if c.done == nil {
+		return
+	}
+	select {
+	case <-c.done:
+	case <-time.After(20 * time.Second):
+		panic("the cleaner did not leave its loop after the replica was closed")
+	}
+}
+
+func (c *cleaner) stop() {
+	c.ctrl.Close()
+	c.agent.Close()
+}
+
+// pass lets the cleaner run its loop body exactly once with the given checkpoint
+func (c *cleaner) pass(checkpoint string, fail bool) (folds, failed int) {
+	c.mu.Lock()
+	c.armed, c.served, c.after, c.failFold, c.folds, c.failed = checkpoint, false, 0, fail, 0, 0
+	c.mu.Unlock()
+	deadline := time.Now().Add(30 * time.Second)
+	for {
+		c.mu.Lock()
+		over := c.served && c.after > 0
+		c.mu.Unlock()
+		if over {
+			break
+		}
+		if time.Now().After(deadline) {
+			panic("the cleaner did not complete a pass in 30 s")
+		}
+		time.Sleep(200 * time.Microsecond)
+	}
+	c.mu.Lock()
+	defer c.mu.Unlock()
+	c.armed, c.failFold = "", false
+	return c.folds, c.failed
+}
+
+// clean: one pass of the production cleaner loop with checkpoint op.CP on both sides
+func (r *runner) clean(op Op) (res string, data []int64, names []int, sizes []int64, note string) {
+	if jsync.SnapshotDeletionInterval > 100*time.Millisecond {
+		panic(fmt.Sprintf("cleaner period is %v: the harness was built without the shortened ticker", jsync.SnapshotDeletionInterval))
+	}
+	s := r.s
+	r.vict = 0
+	names = []int{}
+	if op.CP < 0 {
+		// no checkpoint at the controller: the loop body stops at GetCheckpoint
+		return "ok", nil, names, nil, "no checkpoint"
+	}
+	cp := r.disk(op.CP)
+	if err := s.SetCheckpoint(cp); err != nil {
+		return "err", nil, names, nil, "setcheckpoint: " + err.Error()
+	}
+	l, err := jsync.GetDeleteCandidateChain(s.Replica(), cp)
+	if err != nil {
+		return "err", nil, names, nil, err.Error()
+	}
+	for _, d := range l {
+		names = append(names, nameOf(d))
+	}
+	if len(l) > 0 {
+		r.vict = nameOf(l[0])
+	}
+	if r.cl == nil {
+		c, err := newCleaner(r.dir)
+		if err != nil {
+			panic("cleaner: " + err.Error())
+		}
+		r.cl = c
+	}
+	jsync.SnapshotRetentionCount = 1
+	r.cl.ensure(s)
+	folds, failed := r.cl.pass(cp, op.Fail)
+	note = fmt.Sprintf("folds %d failed %d", folds, failed)
+	if failed > 0 {
+		return "err", nil, names, nil, note
+	}
+	return "ok", nil, names, nil, note
 }
 
 // disk maps a model name to the file name: 0 is the current head
@@ -525,10 +844,18 @@ func runCase(c Case, work string) (out Out) {
 			out.Err = fmt.Sprintf("step %d (%s): %v", i, op.K, err)
 			break
 		}
+		if op.K == "clean" {
+			o.Victim = r.vict
+		}
 		out.Obs = append(out.Obs, o)
 	}
 	hx.QuiesceHoles()
-	if r.s.Replica() != nil {
+	if r.cl != nil {
+		// the production cleaner leaves its loop only when Server.Replica() is nil
+		r.s.Close()
+		r.cl.waitExit()
+		r.cl.stop()
+	} else if r.s.Replica() != nil {
 		r.s.Replica().Close() // no drain needed: the queue is empty
 	}
 	types.ShouldPunchHoles = false
